@@ -283,6 +283,9 @@ func forkTablesRule(r *R, rule string) {
 	for _, k := range names {
 		n++
 		if rv, ok := ref[k]; !ok {
+			if pkgConstNames[modPath+"/pkg/http2."+k] {
+				continue // a named constant of the fork's own: its value shows wherever it is used
+			}
 			o.Fail("package-level %s exists only in the fork", k)
 		} else if rv != mine[k] {
 			o.Fail("package-level %s = %.120s differs from upstream %.120s", k, mine[k], rv)
